@@ -348,9 +348,42 @@ func execC17Switch(c c17Case, dir string, r *oracle.Result) (*oracle.Result, str
 	return r, ""
 }
 
+// execC17Query: a DSN whose query string asks for encryption in so many words (encrypt=on or
+// encrypt=aesgcm with a usable key, which is in the environment as well) but is not well-formed
+// as a whole - a ";" between two pairs, a broken percent escape somewhere. Opening may fail; if
+// it succeeds, what is stored is not plaintext.
+func execC17Query(c c17Case, dir string, r *oracle.Result) (*oracle.Result, string) {
+	key := aesKey(32, 7)
+	dsn := "fscache://" + dir + "?" + strings.ReplaceAll(c.BadKey, "$KEY", queryEscape(key))
+	os.Setenv("FSCACHE_ENCRYPT_KEY", key)
+	defer os.Unsetenv("FSCACHE_ENCRYPT_KEY")
+	conn, err := store.Open(dsn)
+	r.Evals++
+	r.NonTrivial = true
+	r.NTKeys = append(r.NTKeys, "query/"+c.BadKey)
+	if err != nil {
+		r.Label("query-rejected")
+		return r, ""
+	}
+	value := world.ExpandValue(64, 11)
+	_ = conn.Set("http://a.test/cfg#0", value)
+	for _, f := range filesUnder(dir) {
+		b, _ := os.ReadFile(f)
+		if plaintextWindow(b, value) >= 0 {
+			r.Fail("C17", "encryption-requested-but-plaintext:query", -1, "opened with the DSN query %q (encryption asked for, valid key in DSN and environment): the open succeeded and the value is stored in plaintext", c.BadKey)
+			return r, ""
+		}
+	}
+	r.Label("query-accepted-and-encrypted")
+	return r, ""
+}
+
 func execC17Config(c c17Case, dir string, r *oracle.Result) (*oracle.Result, string) {
 	if c.KeyTag == "switch" {
 		return execC17Switch(c, dir, r)
+	}
+	if c.KeyTag == "query" {
+		return execC17Query(c, dir, r)
 	}
 	keyPresent := c.KeyTag != "absent"
 	conn, err := c17Open(c.Path, dir, c.BadKey, keyPresent)
@@ -438,6 +471,15 @@ func TestC17Config(t *testing.T) {
 	RunEnum(t, checkC17, func(yield func(*world.Scenario) bool) {
 		for _, v := range []string{"ON", "On", "AESGCM", "aes-gcm", "aes", "true", "1", "yes", "enabled", "on ", "encrypt"} {
 			if !yield(mkC17(c17Case{Kind: "config", Path: "dsn-switch", BadKey: v, KeyTag: "switch"})) {
+				return
+			}
+		}
+		for _, q := range []string{
+			"appname=app&encrypt=on;encrypt_key=$KEY", "appname=app;encrypt=on&encrypt_key=$KEY", "encrypt=on;appname=app", "appname=app&encrypt=aesgcm;encrypt_key=$KEY",
+			"appname=app&encrypt=on&encrypt_key=$KEY&x=%zz", "appname=app&x=%&encrypt=on", "appname=app&encrypt=on&encrypt_key=$KEY;", "appname=app&encrypt=on&encrypt_key=$KEY&%gg=1",
+			"appname=app&encrypt=on&encrypt_key=$KEY&timeout=5s;connect_timeout=1s", "appname=app&encrypt=on&encrypt_key=$KEY", "encrypt=on&appname=app",
+		} {
+			if !yield(mkC17(c17Case{Kind: "config", Path: "dsn-query", BadKey: q, KeyTag: "query"})) {
 				return
 			}
 		}
